@@ -66,7 +66,7 @@ Reset(c) ==
 NoTimerDueBy(t) == \A tm \in timers : tm.due > t
 AtNow == e.t = now
 
-Ignored == {"accept", "listen", "lclose", "hook", "hookret", "pclose", "drop", "mkpipe", "pdrop"}
+Ignored == {"accept", "listen", "lclose", "hook", "hookret", "pclose", "drop", "mkpipe", "pdrop", "dial", "dialres"}
 
 SeqToSet(s) == {s[i] : i \in 1..Len(s)}
 
